@@ -551,6 +551,169 @@ where
     sub.held(h.get(), true);
 }
 
+
+/// Badly scaled float operands (added after seeded change C01_M): every entry is m * 2^e with its own
+/// exponent e in -40..40, so neighbouring entries differ by many orders of magnitude.  Each output
+/// element of a product is judged against the *componentwise* bound of a sum of products,
+/// |got - exact| <= 8 eps * sum_k |a_ik| |b_kj| (exact = the sum evaluated in f64 with compensated
+/// terms for f64 subjects), which any order of accumulation, fused or not, satisfies - and which an
+/// "algebraically equivalent" rewrite that routes an element through unrelated, larger entries
+/// (trace, determinant, row sums) does not.
+fn scaled<M, V, F>(sub: &mut Sub, cfg: &Config, idx: u64)
+where
+    F: num_traits::Float + std::fmt::Debug + 'static,
+    M: MatX<F, V = V> + Copy + std::ops::Mul<M, Output = M> + std::ops::Mul<V, Output = V> + std::ops::MulAssign<M>,
+    V: VecX<F> + Copy + std::ops::Mul<M, Output = V>,
+{
+    let n = M::N;
+    let f32s = std::mem::size_of::<F>() == 4;
+    let tname = if f32s { "f32" } else { "f64" };
+    let eps = if f32s { f32::EPSILON as f64 } else { f64::EPSILON };
+    let mut rng = Rng::for_case(&format!("scaled/{}/{}", M::NAME, tname), cfg.case_seed(), idx);
+    let mut draw = |rng: &mut Rng| -> F {
+        let m = rng.range_i64(-16, 16) as f64 / 8.0;
+        let e = if rng.chance(1, 3) { 0 } else { rng.range_i64(-40, 40) as i32 };
+        F::from(m * 2f64.powi(e)).unwrap()
+    };
+    let ea: Vec<Vec<F>> = (0..n).map(|_| (0..n).map(|_| draw(&mut rng)).collect()).collect();
+    let eb: Vec<Vec<F>> = (0..n).map(|_| (0..n).map(|_| draw(&mut rng)).collect()).collect();
+    let ev: Vec<F> = (0..n).map(|_| draw(&mut rng)).collect();
+    let a = M::from_fn(|i, j| ea[i][j]);
+    let b = M::from_fn(|i, j| eb[i][j]);
+    let v = V::from_fn(|i| ev[i]);
+    let mut h = H64::new();
+    h.s(M::NAME).s(tname);
+    for x in ea.iter().flatten().chain(eb.iter().flatten()).chain(ev.iter()) {
+        h.f(x.to_f64().unwrap());
+    }
+    let ctx = format!("a={:?} b={:?} v={:?}", ea, eb, ev);
+    let g = |x: F| x.to_f64().unwrap();
+    // exact-enough reference: entries are 5-bit mantissas times powers of two, so every product is exact in
+    // f64 and the sum of at most 4 of them is evaluated with a sorted (largest magnitude last) summation;
+    // bound = sum of |terms|
+    let dot = |terms: Vec<f64>| -> (f64, f64) {
+        let mut t = terms.clone();
+        t.sort_by(|x, y| x.abs().partial_cmp(&y.abs()).unwrap());
+        (t.iter().sum::<f64>(), t.iter().map(|x| x.abs()).sum::<f64>())
+    };
+    let mut fails: Vec<Violation> = Vec::new();
+    let judge = |fails: &mut Vec<Violation>, api: String, what: &str, got: f64, terms: Vec<f64>, sub: &mut Sub| {
+        let (exact, bound) = dot(terms);
+        // f64 subjects: the reference sum itself carries up to 2 eps * bound
+        let tol = 8.0 * eps * bound + if f32s { 0.0 } else { 4.0 * f64::EPSILON * bound };
+        if !((got - exact).abs() <= tol) {
+            fails.push(violation(PROP, sub, &api, tname, "wrong_value", "componentwise_bound", format!("{}: {} = {:e}, the sum of products is {:e} (sum of |terms| {:e}, tolerance {:e})", ctx, what, got, exact, bound, tol), cfg.case_seed(), idx));
+        }
+    };
+    let api_mm = format!("Mul for {}", M::NAME);
+    let api_ma = format!("MulAssign for {}", M::NAME);
+    let api_mv = format!("Mul<{}> for {}", V::NAME, M::NAME);
+    let api_vm = format!("Mul<{}> for {}", M::NAME, V::NAME);
+    for api in [&api_mm, &api_ma, &api_mv, &api_vm] {
+        sub.saw(api);
+    }
+    match guarded(|| (a * b, { let mut p = a; p *= b; p }, a * v, v * a)) {
+        Err(e) => fails.push(violation(PROP, sub, &api_mm, tname, "panic", "scaled_panics", format!("{}: {}", ctx, e), cfg.case_seed(), idx)),
+        Ok((c, ca, mv, vm)) => {
+            for i in 0..n {
+                for j in 0..n {
+                    let terms: Vec<f64> = (0..n).map(|k| g(ea[i][k]) * g(eb[k][j])).collect();
+                    judge(&mut fails, api_mm.clone(), &format!("(a*b)({},{})", i, j), g(c.get(i, j)), terms.clone(), sub);
+                    judge(&mut fails, api_ma.clone(), &format!("(a*=b)({},{})", i, j), g(ca.get(i, j)), terms, sub);
+                }
+                judge(&mut fails, api_mv.clone(), &format!("(a*v)[{}]", i), g(mv.get(i)), (0..n).map(|k| g(ea[i][k]) * g(ev[k])).collect(), sub);
+                judge(&mut fails, api_vm.clone(), &format!("(v*a)[{}]", i), g(vm.get(i)), (0..n).map(|k| g(ev[k]) * g(ea[k][i])).collect(), sub);
+            }
+        }
+    }
+    fails.dedup_by(|x, y| x.sig == y.sig);
+    if fails.is_empty() {
+        sub.sample(|| format!("{} [{}]: {}", api_mm, tname, ctx));
+        sub.held(h.get(), true);
+    } else {
+        for f in fails {
+            sub.violated(f);
+        }
+    }
+}
+
+/// the same for the six Vec4-as-2x2 helpers
+fn scaled_mat2<F>(sub: &mut Sub, cfg: &Config, idx: u64)
+where
+    F: num_traits::Float + num_traits::MulAdd<F, F, Output = F> + std::fmt::Debug + 'static,
+{
+    let f32s = std::mem::size_of::<F>() == 4;
+    let tname = if f32s { "f32" } else { "f64" };
+    let eps = if f32s { f32::EPSILON as f64 } else { f64::EPSILON };
+    let mut rng = Rng::for_case(&format!("scaled_mat2/{}", tname), cfg.case_seed(), idx);
+    let mut draw = |rng: &mut Rng| -> f64 {
+        let m = rng.range_i64(-16, 16) as f64 / 8.0;
+        let e = if rng.chance(1, 3) { 0 } else { rng.range_i64(-40, 40) as i32 };
+        m * 2f64.powi(e)
+    };
+    let av: [f64; 4] = [draw(&mut rng), draw(&mut rng), draw(&mut rng), draw(&mut rng)];
+    let bv: [f64; 4] = [draw(&mut rng), draw(&mut rng), draw(&mut rng), draw(&mut rng)];
+    let va = Vec4::<F>::new(F::from(av[0]).unwrap(), F::from(av[1]).unwrap(), F::from(av[2]).unwrap(), F::from(av[3]).unwrap());
+    let vb = Vec4::<F>::new(F::from(bv[0]).unwrap(), F::from(bv[1]).unwrap(), F::from(bv[2]).unwrap(), F::from(bv[3]).unwrap());
+    type M2 = [[f64; 2]; 2];
+    let adj = |a: M2| -> M2 { [[a[1][1], -a[0][1]], [-a[1][0], a[0][0]]] };
+    let rows = |v: [f64; 4]| -> M2 { [[v[0], v[1]], [v[2], v[3]]] };
+    let cols = |v: [f64; 4]| -> M2 { [[v[0], v[2]], [v[1], v[3]]] };
+    type H<F> = fn(Vec4<F>, Vec4<F>) -> Vec4<F>;
+    let table: [(&str, H<F>, bool, u8); 6] = [
+        ("Vec4::mat2_rows_mul", |a, b| a.mat2_rows_mul(b), true, 0),
+        ("Vec4::mat2_rows_adj_mul", |a, b| a.mat2_rows_adj_mul(b), true, 1),
+        ("Vec4::mat2_rows_mul_adj", |a, b| a.mat2_rows_mul_adj(b), true, 2),
+        ("Vec4::mat2_cols_mul", |a, b| a.mat2_cols_mul(b), false, 0),
+        ("Vec4::mat2_cols_adj_mul", |a, b| a.mat2_cols_adj_mul(b), false, 1),
+        ("Vec4::mat2_cols_mul_adj", |a, b| a.mat2_cols_mul_adj(b), false, 2),
+    ];
+    let mut h = H64::new();
+    h.s("mat2").s(tname);
+    for x in av.iter().chain(bv.iter()) {
+        h.f(*x);
+    }
+    let mut fails: Vec<Violation> = Vec::new();
+    for (name, f, is_rows, kind) in table.iter() {
+        sub.saw(name);
+        let (ma, mb) = if *is_rows { (rows(av), rows(bv)) } else { (cols(av), cols(bv)) };
+        let (l, r) = match kind {
+            0 => (ma, mb),
+            1 => (adj(ma), mb),
+            _ => (ma, adj(mb)),
+        };
+        let got = match guarded(|| f(va, vb)) {
+            Ok(g) => g,
+            Err(e) => {
+                fails.push(violation(PROP, sub, name, tname, "panic", "scaled_panics", format!("a={:?} b={:?}: {}", av, bv, e), cfg.case_seed(), idx));
+                continue;
+            }
+        };
+        let gv = [got.x.to_f64().unwrap(), got.y.to_f64().unwrap(), got.z.to_f64().unwrap(), got.w.to_f64().unwrap()];
+        for i in 0..2 {
+            for j in 0..2 {
+                let (t0, t1) = (l[i][0] * r[0][j], l[i][1] * r[1][j]);
+                let exact = if t0.abs() < t1.abs() { t0 + t1 } else { t1 + t0 };
+                let bound = t0.abs() + t1.abs();
+                let tol = 8.0 * eps * bound + if f32s { 0.0 } else { 4.0 * f64::EPSILON * bound };
+                let g = if *is_rows { gv[2 * i + j] } else { gv[2 * j + i] };
+                if !((g - exact).abs() <= tol) {
+                    fails.push(violation(PROP, sub, name, tname, "wrong_value", "componentwise_bound", format!("a={:?} b={:?} (as {} 2x2 matrices): element ({},{}) = {:e}, the 2x2 expression gives {:e} (sum of |terms| {:e}, tolerance {:e})", av, bv, if *is_rows { "row-major" } else { "column-major" }, i, j, g, exact, bound, tol), cfg.case_seed(), idx));
+                }
+            }
+        }
+    }
+    fails.dedup_by(|x, y| x.sig == y.sig);
+    if fails.is_empty() {
+        sub.sample(|| format!("mat2 helpers [{}]: a={:?} b={:?}", tname, av, bv));
+        sub.held(h.get(), true);
+    } else {
+        for f in fails {
+            sub.violated(f);
+        }
+    }
+}
+
 /// IEEE special values: scalar broadcast, element-wise operators and products on f32/f64 matrices
 /// whose entries (and scalars) are drawn from {NaN, +-inf, +-0, small integers}.  Per element the
 /// operators must return exactly what the scalar operator returns (inf * 0 is NaN, not 0); a
@@ -857,6 +1020,26 @@ fn main() {
             nonfinite::<Cols2<f64>, Vec2<f64>, f64>(s, &cfg, i);
             nonfinite::<Rows3<f32>, Vec3<f32>, f32>(s, &cfg, i);
             nonfinite::<Cols3<f32>, Vec3<f32>, f32>(s, &cfg, i);
+        });
+        rep.push(s);
+    }
+    {
+        let proto = Sub::new("values_scaled_float", "f32 and f64 matrices, vectors and Vec4-as-2x2 operands whose entries are m*2^e with an exponent of their own in -40..40 (badly scaled): every element of M*M, M*=M, M*v, v*M (2/3/4, both layouts) and of the six mat2_* helpers within the componentwise bound 8 eps * sum |a_ik||b_kj| of the defining sum of products").with_floor(nq / 2);
+        let s = run_cases(&cfg, proto, nq, |s, i| {
+            scaled::<Rows2<f32>, Vec2<f32>, f32>(s, &cfg, i);
+            scaled::<Cols2<f32>, Vec2<f32>, f32>(s, &cfg, i);
+            scaled::<Rows3<f64>, Vec3<f64>, f64>(s, &cfg, i);
+            scaled::<Cols3<f64>, Vec3<f64>, f64>(s, &cfg, i);
+            scaled::<Rows4<f32>, Vec4<f32>, f32>(s, &cfg, i);
+            scaled::<Cols4<f32>, Vec4<f32>, f32>(s, &cfg, i);
+            scaled::<Rows4<f64>, Vec4<f64>, f64>(s, &cfg, i);
+            scaled::<Cols4<f64>, Vec4<f64>, f64>(s, &cfg, i);
+            scaled::<Rows2<f64>, Vec2<f64>, f64>(s, &cfg, i);
+            scaled::<Cols2<f64>, Vec2<f64>, f64>(s, &cfg, i);
+            scaled::<Rows3<f32>, Vec3<f32>, f32>(s, &cfg, i);
+            scaled::<Cols3<f32>, Vec3<f32>, f32>(s, &cfg, i);
+            scaled_mat2::<f32>(s, &cfg, i);
+            scaled_mat2::<f64>(s, &cfg, i);
         });
         rep.push(s);
     }
